@@ -101,29 +101,9 @@ def check(ck):
         ck.ob("_perform_subscription: the pre-flight gets (schema, document, response builder, initial value, context, variables, operation name)",
               cs is not None and [unparse(a) for a in cs.args] == want and fv.is_awaited(cs), f, cs or f.node, construct="preflight:operands")
         c = repo.func(EXE, "create_source_event_stream")
-        cv = FuncView(c)
-        sub = [x for x in cv.calls("subscribe")]
-        ok = len(sub) == 1 and cv.guarded(sub[0], lambda t: t == "errors", "F") and isinstance(cv.stmt_of(sub[0]), ast.Return)
-        ck.ob("create_source_event_stream: the registered generator is called only without errors, and its stream is returned", ok, c, sub[0] if sub else c.node,
-              construct="source:gate")
+        from ..q import inlined_view as _iv14
+        cv = _iv14(repo, c, max_stmts=25)   # helpers that find the root field are part of it
         _source_rows(ck, repo, c)
-        rs = cv.raises()
-        # identified by their guards (the wording of the messages is free)
-        nd = [r for r in rs if ("field_definition", "F") in cv.conditions(r)]
-        ns = [r for r in rs if ("field_definition.subscribe", "F") in cv.conditions(r)]
-        ck.ob("create_source_event_stream: an unknown subscription field is an error (the catch-all renders it), not a call",
-              len(nd) == 1 and ("field_definition", "F") in cv.conditions(nd[0]) and sub and ("field_definition", "T") in cv.conditions(sub[0]), c, nd[0] if nd else c.node, construct="source:unknown-field")
-        ck.ob("create_source_event_stream: a field without a registered generator is an error, not a call",
-              len(ns) == 1 and ("field_definition.subscribe", "F") in cv.conditions(ns[0]) and sub and ("field_definition.subscribe", "T") in cv.conditions(sub[0]), c, ns[0] if ns else c.node,
-              construct="source:no-generator")
-        cf = cv.maybe_call("collect_fields")
-        ck.ob("create_source_event_stream: root fields are collected from the selected operation's selection set",
-              cf is not None and [unparse(a) for a in cf.args] == ["execution_context", "operation_root_type", "execution_context.operation.selection_set"] and cv.is_awaited(cf), c,
-              cf or c.node, construct="source:collect")
-        bi = cv.maybe_call("build_resolve_info")
-        ck.ob("create_source_event_stream: the generator's info describes that field at its response path",
-              bi is not None and [unparse(a) for a in bi.args] == ["execution_context", "field_definition", "field_nodes", "operation_root_type", "Path(None, response_name)"], c, bi or c.node,
-              construct="source:info")
         sb = repo.func("tartiflette/subscription/subscription.py", "Subscription.bake")
         sv2 = FuncView(sb)
         rs2 = sv2.raises()
@@ -174,7 +154,8 @@ def _source_rows(ck, repo, c):
     producers' results (intermediates, tuple unpacking and a flattened `await` substituted; the results of the producer
     calls stand by role)."""
     from ..pathtab import outcome_rows
-    cv = FuncView(c)
+    from ..q import inlined_view as _iv14
+    cv = _iv14(repo, c, max_stmts=25)
     p = c.positional_params
     producers = {"collect_fields": "FIELDS", "get_operation_root_type": "ROOT_TYPE", "build_resolve_info": "INFO"}
 
@@ -191,6 +172,48 @@ def _source_rows(ck, repo, c):
         raise AnalysisError("create_source_event_stream: no path returns the source generator's stream")
     firsts = ["FIELDS[list(FIELDS.keys())[0]]", "list(FIELDS.items())[0][1]", "next(iter(FIELDS.items()))[1]", "next(iter(FIELDS.values()))", "list(FIELDS.values())[0]",
               "FIELDS[next(iter(FIELDS))]", "FIELDS[next(iter(FIELDS.keys()))]", "FIELDS[list(FIELDS)[0]]"]
+    all_rows = outcome_rows(cv, opaque=opaque)
+    n_unknown = n_nogen = 0
+    for r in all_rows:
+        fd_tests = [(t, o) for t, o in r["conds"] if t.replace("not ", "").strip().startswith("get_field_definition(")]
+        fd_truth = {}
+        for t, o in fd_tests:
+            neg = t.strip().startswith("not ")
+            key = "subscribe" if t.rstrip().endswith(".subscribe") else "definition"
+            fd_truth[key] = o if not neg else ("F" if o == "T" else "T")
+        err = [o for t, o in r["conds"] if t.strip() in ("ERRORS", "not ERRORS")]
+        err_truth = None
+        if err:
+            t0 = [t for t, o in r["conds"] if t.strip() in ("ERRORS", "not ERRORS")][-1]
+            err_truth = err[-1] if t0.strip() == "ERRORS" else ("F" if err[-1] == "T" else "T")
+        starts = r["exit"] == "return_exit" and r["ret"] is not None and isinstance(strip_await(r["ret"]), ast.Call) and callee_last(strip_await(r["ret"])) == "subscribe"
+        where = r["last"] or c.node
+        if starts:
+            ck.ob("create_source_event_stream: the registered generator is called only without errors, and its stream is returned", err_truth == "F", c, where, construct="source:gate")
+            ck.ob("create_source_event_stream: the generator is started only for a known field that has one", fd_truth.get("definition") == "T" and fd_truth.get("subscribe") == "T", c, where,
+                  construct="source:known-field", detail=str(fd_truth))
+        if err_truth == "F" and fd_truth.get("definition") == "F":
+            n_unknown += 1
+            ck.ob("create_source_event_stream: an unknown subscription field is an error (the catch-all renders it), not a call", r["exit"] == "raise_exit", c, where, construct="source:unknown-field")
+        if err_truth == "F" and fd_truth.get("definition") == "T" and fd_truth.get("subscribe") == "F":
+            n_nogen += 1
+            ck.ob("create_source_event_stream: a field without a registered generator is an error, not a call", r["exit"] == "raise_exit", c, where, construct="source:no-generator")
+    ck.ob("create_source_event_stream: has a path for an unknown field and one for a field without generator", n_unknown >= 1 and n_nogen >= 1, c, c.node, construct="source:guards",
+          detail=f"unknown-field paths {n_unknown}, no-generator paths {n_nogen}")
+    cf = [x for x in cv.calls("collect_fields")]
+    ok = False
+    if len(cf) == 1 and rows:
+        sub_ = rows[0]["sym"]["__sub__"]
+        a_ = [unparse(sub_(x)) for x in cf[0].args]
+        ok = a_ == ["CONTEXT", "ROOT_TYPE", "CONTEXT.operation.selection_set"] and cv.is_awaited(cf[0])
+    ck.ob("create_source_event_stream: root fields are collected from the selected operation's selection set", ok, c, cf[0] if cf else c.node, construct="source:collect")
+    bi = [x for x in cv.calls("build_resolve_info")]
+    ok = False
+    if len(bi) == 1 and rows:
+        sub_ = rows[0]["sym"]["__sub__"]
+        a_ = [unparse(sub_(x)) for x in bi[0].args]
+        ok = len(a_) == 5 and a_[0] == "CONTEXT" and a_[1].startswith(f"get_field_definition({p[0]}, ROOT_TYPE, ") and a_[3] == "ROOT_TYPE" and a_[4].startswith("Path(None, ")
+    ck.ob("create_source_event_stream: the generator's info describes that field at its response path", ok, c, bi[0] if bi else c.node, construct="source:info")
     for r in rows:
         got = unparse(strip_await(r["ret"]))
         ok_root = ok_ops = False
